@@ -134,6 +134,19 @@ theorem C19_work_pos_iff (t : Int) (h0 : 0 < t) : 0 < workSpec t ↔ t + 1 ≤ 2
     · have hz : workSpec t = 0 := by omega
       rw [hz] at hu; omega
 
+/-- on the code: work is positive exactly for the encodings whose decoded target lies in (0, 2^256);
+    larger targets (exponent bytes above 32) and non-positive ones weigh nothing in chain selection. -/
+theorem C19_work_pos_iff_generated (b : Nat) (hb : b < 2^32) :
+    0 < Gen.calcWork b ↔ (0 < Gen.compactToBig b ∧ Gen.compactToBig b + 1 ≤ 2^256) := by
+  rw [C19_work b hb, C19_compact b hb]
+  constructor
+  · intro hw
+    by_cases h0 : 0 < targetSpec b
+    · exact ⟨h0, (C19_work_pos_iff _ h0).1 hw⟩
+    · rw [C19_nonpos _ (by omega)] at hw; omega
+  · intro ⟨h0, h1⟩
+    exact (C19_work_pos_iff _ h0).2 h1
+
 /-- the logarithm brackets n between consecutive powers of two, on the generated definition. -/
 theorem C19_log2_bracket (n : Nat) (h0 : 0 < n) (h : n < 2^32) :
     2 ^ Gen.fastLog2Floor n ≤ n ∧ n < 2 ^ (Gen.fastLog2Floor n + 1) := by
@@ -168,6 +181,8 @@ example : Gen.fastLog2Floor 1 = 0 := by decide
 -- premises of the end-to-end corollaries are satisfiable: 0x1c00ffff decodes below 0x1d00ffff, both positive
 example : 0 < Gen.compactToBig 0x1c00ffff ∧ Gen.compactToBig 0x1c00ffff ≤ Gen.compactToBig 0x1d00ffff := by decide
 example : Gen.calcWork 0x1d00ffff ≤ Gen.calcWork 0x1c00ffff := by decide
+-- both sides of the positivity criterion occur: 0x2200ffff decodes to 0xffff·2^248 > 2^256 and has work 0
+example : 0 < Gen.compactToBig 0x2200ffff ∧ Gen.calcWork 0x2200ffff = 0 ∧ 0 < Gen.calcWork 0x207fffff := by decide
 example : Gen.compactToBig 0x1d80ffff ≤ 0 ∧ Gen.calcWork 0x1d80ffff = 0 := by decide
 
 end BHS.Props.C19
